@@ -371,7 +371,7 @@ fn c15_malformed(rep: &mut Report, case: &SmallCase, cli: &str, dir: &Path, rng:
     let l = |i: usize| spell(&case.g.labels[i], false);
     let a = rng.below(case.g.n);
     let mut bad: Vec<(&str, String)> = Vec::new();
-    match rng.below(6) {
+    match rng.below(7) {
         0 => bad.push(("trailing-garbage", format!("{}x", text))),
         1 => {
             let mut t = text.clone();
@@ -381,7 +381,21 @@ fn c15_malformed(rep: &mut Report, case: &SmallCase, cli: &str, dir: &Path, rng:
             bad.push(("delete-bracket", t));
         }
         2 => bad.push(("arity", format!("{}ac({},and({})).", text, l(a), l(a)))),
-        3 => bad.push(("undeclared-in-body", format!("{}ac({},UNDECLAREDx9).", text, l(a)))),
+        3 => {
+            // an undeclared statement, bare or at a position where its value cannot matter
+            let b = l(rng.below(case.g.n));
+            let body = match rng.below(8) {
+                0 => "and(c(f),UNDECLAREDx9)".to_string(),
+                1 => "or(c(v),UNDECLAREDx9)".to_string(),
+                2 => format!("and(and({b},neg({b})),UNDECLAREDx9)", b = b),
+                3 => format!("or(or({b},neg({b})),UNDECLAREDx9)", b = b),
+                4 => "and(UNDECLAREDx9,c(f))".to_string(),
+                5 => format!("imp(c(f),and({},UNDECLAREDx9))", b),
+                6 => "xor(UNDECLAREDx9,UNDECLAREDx9)".to_string(),
+                _ => "UNDECLAREDx9".to_string(),
+            };
+            bad.push(("undeclared-in-body", format!("{}ac({},{}).", text, l(a), body)));
+        }
         4 => bad.push(("undeclared-head", format!("{}ac(UNDECLAREDx9,{}).", text, l(a)))),
         _ => {
             let t: String = text.chars().take(text.chars().count().saturating_sub(2).max(1)).collect();
